@@ -41,6 +41,9 @@ CHECKS = {
     "C11": dict(text="in-process clause only: OptionParser::run executed from MIR with current_args / process::exit / print macros as recording models: the program body is reached iff the run yields a value (and nothing is printed), otherwise exactly one print to stdout with status 0 (help/version/completion) or to stderr with status 1 (failure); ParseFailure::exit_code on all variants. One concrete argv per path is additionally pushed through a REAL process running run() (supporting evidence)",
                 note="the clause 'a real process behaves like run_inner for every OS argv (non-UTF-8 through execve, argv[0] -> name)' is outside symbolic execution and is NOT claimed; message non-emptiness is not decided (rendering cut); bounds <=3 argv words quick / <=4 thorough, 4 grammars",
                 tech=MIRSYM + ", effect-recording models", ref="DESIGN.md 4/C11"),
+    "C12": dict(text="the Meta tree is the symbolic input: bounded trees whose node kinds (And/Or/Optional/Required/Many/Adjacent/Subsection/Suffix/CustomUsage/Skip) and leaf kinds (flag/argument/positional/command, with or without help) are chosen through the solver; append_meta, grouping, de-duplication, write_help_item*, the Doc builders and render_console are executed from MIR and the rendered text is checked: every visible item listed exactly once with name, metavariable and help, nothing hidden / no help-less positional, CustomUsage changes nothing; per primitive the shown name is the first declared one and is accepted; descr/usage/header/items/footer order on real grammars",
+                note="bounds: depth <=2, <=2 inner nodes quick (3 thorough), unique leaf names; usage-line normalisation not asserted; BTreeSet and Debug keys modelled injectively",
+                tech=MIRSYM + ", solver-chosen definitions + text oracle", ref="DESIGN.md 4/C12"),
     "C13": dict(text="Doc::render_console (with the Splitter) executed from MIR on the block structures bpaf emits, text of symbolic bytes, symbolic width: inserted bytes are only spaces/newlines and the non-whitespace user bytes appear exactly once and in order (exact provenance); short form is a prefix / the whole first paragraph; with a concrete multi-word filler and max_width symbolic in 40..=48 every multi-word line is at most max_width+2 columns",
                 note="bounds: 8 templates, symbolic text <=4 bytes quick / <=5 thorough over {space,newline,a,b,é}, widths 1..=16 and 100 for content, 40..=48 for the width clause; widths 49..=300, longer texts and colours are outside",
                 tech=MIRSYM + " over symbolic bytes, provenance obligations", ref="DESIGN.md 4/C13"),
